@@ -45,7 +45,9 @@ What the generator properties needed in addition (this replaces the "source-leve
 equality" of the round-0 plan, which turned out too large): an **eBPF ISA model in Coq** (`coq/Ebpf/Isa.v`: registers, stack,
 packet, array maps, ALU32/64, jumps, byte swaps, atomic add, helper calls 1 / 5 / 7 / 12) that is itself validated against the
 running kernel on every run (`harness/isa_check.py`: random programs through BPF_PROG_TEST_RUN; skipped when bpf() is not
-permitted).  The REAL generator is driven through a small JSON surface language (`harness/dsl.py`, real operator overloads and
+permitted); the hash-map helper calls layered on top of it (`coq/Corr/C09.v`) are validated the same way against real BPF hash
+maps (`harness/hash_check.py`: lookup / update with every flag / delete, capacity, values through returned pointers, pointers kept
+across an update).  The REAL generator is driven through a small JSON surface language (`harness/dsl.py`, real operator overloads and
 descriptors), its real bytecode is executed in the ISA model, and three things are compared: executed code == operand-level
 model (`Gen/Denote.v`, `Gen/Cond.v`, `Gen/Packet.v`, `Gen/Fixed.v`, ...; all cases), executed code == exact mathematical
 meaning (inside the property's precondition), ISA == kernel.  Device and dispatcher programs (C19, C21, C22, C26) are assembled
@@ -65,7 +67,7 @@ real code; 5. correspondence (all cases that have a model term) ; 6. oracle; 7. 
 build, the tie or the correspondence broke and no failing input is at hand, search more cases; print
 `VIOLATION property=<id> replay=<file>` (plus `no-failing-input-found` if none), `KNOWN-FINDING: ...` lines, write
 `evidence/<id>.json` (obligations = theorems + build + forbidden-construct scan, discharged, distribution of the generated
-inputs, sample of observations).  `bin/setup` builds everything; `bin/checkall` runs every quick check.
+inputs, sample of observations, `further_ties`: the outcome of every additional tie such as ISA-vs-kernel).  `bin/setup` builds everything; `bin/checkall` runs every quick check.
 
 ## 3. Trusted base
 
@@ -99,6 +101,18 @@ inputs, sample of observations).  `bin/setup` builds everything; `bin/checkall` 
 * **C23**: a failed `open(..., 'x')` attempt is a step of its own (the first model made the whole ethertype search atomic and
   disagreed with the real processes on 13 of 402 schedules); model corrected.
 * **eval_terms**: large outputs through a pipe dead-locked the harness (20-minute stalls); outputs now go through files.
+* **C09, accepted refusals**: the C09 oracle accepted "register r0 has no value" as "the generator refused the program".  After
+  fix 83524c6 kept r1 alive across helper calls, 85% of the Dict cases were refused that way and the check had silently lost most
+  of its coverage (found while strengthening it for seed C09-b).  The refusal was itself a genuine defect (Dict.update / lookup
+  saved live registers into r0, fix e7e48d1); the exemption is removed and `distinct_nontrivial` is back to all cases.
+* **C29 thorough**: a test value (-3.0e10) that is not representable in 32 bits was written to an `f` variable and "read back
+  differently": harness error, value replaced.
+* **Concurrent development runs**: a thorough run of C06 reported 970 mismatches once because Coq sources were rebuilt under it
+  (model evaluation failed); checks must not run while the development is being edited.  Re-run alone: clean.
+* **Atomicity assumptions are now exercised, not only stated**: where a theorem treats a critical section as one step, the tie
+  drives the real code through the gap - file locks (C23: an allocation against a removal, the waiting side must report that it
+  waits; C15: two terminals per process), asyncio sections (C20: bus writes that complete when the script says; C25), and
+  machine-checked witnesses show what happens without the atomicity (`C23_split_release_refuted`, `C20_split_booking_refuted`).
 * Every other mismatch met on the unchanged tree turned out to be a genuine defect: section 6.
 '''
 
